@@ -29,27 +29,31 @@ type Mutation struct {
 // ScriptPlan describes one hello built by the toolbox client and fed to a
 // fresh NewConn over a scripted transport.
 type ScriptPlan struct {
-	Keys       []KeySpec    `json:"keys"`      // keys of the client-facing server
-	Target     KeySpec      `json:"target"`    // key the client encrypts to
-	SuiteIdx   int          `json:"suite_idx"` // which of Target.Suites the client uses
-	InnerSNI   string       `json:"inner_sni"`
-	InnerALPN  []string     `json:"inner_alpn,omitempty"`
-	ExtraIn    int          `json:"extra_in"`
-	ExtraOut   int          `json:"extra_out"`
-	MaxData    int          `json:"max_data"`
-	Pad        int          `json:"pad"`
-	Compress   bool         `json:"compress"`
-	NoECH      bool         `json:"no_ech,omitempty"` // plain hello without ECH (pass-through family)
-	Grease     bool         `json:"grease,omitempty"` // GREASE ECH extension (random payload)
-	TLS13      bool         `json:"tls13"`
-	NoVersions bool         `json:"no_versions,omitempty"`
-	RecVer     uint16       `json:"rec_ver"`
-	Mutations  []Mutation   `json:"mutations,omitempty"`
-	Chunks     []int        `json:"chunks,omitempty"`
-	Trailer    []TrailerRec `json:"trailer,omitempty"` // records that follow the hello
-	ReadBuf    int          `json:"read_buf,omitempty"`
-	Expect     string       `json:"expect"` // accept | passthrough | reject (passthrough or abort) | abort
-	Alerts     []int        `json:"alerts,omitempty"`
+	Keys       []KeySpec `json:"keys"`      // keys of the client-facing server
+	Target     KeySpec   `json:"target"`    // key the client encrypts to
+	SuiteIdx   int       `json:"suite_idx"` // which of Target.Suites the client uses
+	InnerSNI   string    `json:"inner_sni"`
+	InnerALPN  []string  `json:"inner_alpn,omitempty"`
+	ExtraIn    int       `json:"extra_in"`
+	ExtraOut   int       `json:"extra_out"`
+	MaxData    int       `json:"max_data"`
+	Pad        int       `json:"pad"`
+	Compress   bool      `json:"compress"`
+	NoECH      bool      `json:"no_ech,omitempty"` // plain hello without ECH (pass-through family)
+	Grease     bool      `json:"grease,omitempty"` // GREASE ECH extension (random payload)
+	TLS13      bool      `json:"tls13"`
+	NoVersions bool      `json:"no_versions,omitempty"`
+	RecVer     uint16    `json:"rec_ver"`
+	LegacyVer  uint16    `json:"legacy_ver,omitempty"` // ClientHello.legacy_version of a plain hello (0 = 0x0303)
+	// HRRThenHello2 (pass-through family): the backend answers with a
+	// HelloRetryRequest and the client repeats its hello; both must pass untouched.
+	HRRThenHello2 bool         `json:"hrr_then_hello2,omitempty"`
+	Mutations     []Mutation   `json:"mutations,omitempty"`
+	Chunks        []int        `json:"chunks,omitempty"`
+	Trailer       []TrailerRec `json:"trailer,omitempty"` // records that follow the hello
+	ReadBuf       int          `json:"read_buf,omitempty"`
+	Expect        string       `json:"expect"` // accept | passthrough | reject (passthrough or abort) | abort
+	Alerts        []int        `json:"alerts,omitempty"`
 }
 
 type TrailerRec struct {
@@ -157,6 +161,9 @@ func buildScript(seed uint64, p *ScriptPlan) (*built, error) {
 			}
 			pos := r.IntN(len(h.Exts) + 1)
 			h.Exts = slices.Insert(h.Exts, pos, echbox.Ext{Type: echbox.ExtECH, Data: e.Bytes()})
+		}
+		if p.LegacyVer != 0 {
+			h.Version = p.LegacyVer
 		}
 		b.outer = h
 		b.outerRec = h.Record(recVer)
@@ -273,6 +280,28 @@ func buildScript(seed uint64, p *ScriptPlan) (*built, error) {
 			// cut the encoded inner short (still sealed authentically)
 			n := len(encoded) - p.Pad
 			encoded = encoded[:m.A%n]
+		case "ext-remnant":
+			// 1..3 stray bytes at the end of the inner extensions block, all
+			// enclosing lengths consistent
+			c := inner.Clone()
+			c.SessionID = nil
+			if to > from {
+				var types []uint16
+				for _, e := range inner.Exts[from:to] {
+					types = append(types, e.Type)
+				}
+				c.Exts = append(append(append([]echbox.Ext(nil), c.Exts[:from]...), echbox.OuterExtsExt(types)), c.Exts[to:]...)
+			}
+			body := c.Body()
+			eb := echbox.MarshalExts(c.Exts)
+			off := len(body) - len(eb) - 2
+			extra := 1 + m.A%3
+			binary.BigEndian.PutUint16(body[off:], uint16(len(eb)+extra))
+			body = append(body, make([]byte, extra)...)
+			for i := 0; i < extra; i++ {
+				body[len(body)-1-i] = byte(m.B >> (8 * i))
+			}
+			encoded = append(body, make([]byte, p.Pad)...)
 		case "inner-len-lie":
 			// inflate the extensions length of the encoded inner beyond the data
 			c := inner.Clone()
@@ -294,6 +323,11 @@ func buildScript(seed uint64, p *ScriptPlan) (*built, error) {
 			if len(p.Target.PublicName) > 200 {
 				outer.Exts[i] = echbox.SNIExt("other.example")
 			}
+		}
+	}
+	if hasMut(p.Mutations, "outer-no-tls13") != nil {
+		if i := outer.Find(echbox.ExtVersions); i >= 0 {
+			outer.Exts[i] = echbox.VersionsExt(0x0303, 0x0302)
 		}
 	}
 	if hasMut(p.Mutations, "outer-has-oe") != nil {
@@ -334,6 +368,31 @@ func buildScript(seed uint64, p *ScriptPlan) (*built, error) {
 			}
 		case "wrong-id-ext": // the extension names another config id than the one sealed for
 			sealID = p.Target.ID + byte(1+m.A%255)
+		case "unlisted-suite": // sealed (and labelled) with a suite the key's config does not list
+			for _, cand := range echbox.AllSuites {
+				listed := false
+				for _, ls := range p.Target.Suites {
+					if ls == cand {
+						listed = true
+					}
+				}
+				if !listed {
+					sealSuite = cand
+				}
+			}
+			if sealSuite == suite {
+				return nil, errSkip // the config lists every suite
+			}
+		case "canonical-info":
+			// the server's config is not in canonical form (maximum_name_length
+			// not derived from the name, or a non-empty extensions block); the
+			// client seals against the canonicalised variant of it
+			k := p.Target
+			if k.MaxNameDelta == 0 && !k.ExtraExt {
+				return nil, errSkip
+			}
+			k.MaxNameDelta, k.ExtraExt = 0, false
+			_, _, sealCfg = k.material()
 		}
 	}
 	s, err := echbox.NewSealer(sealPub, sealCfg, sealID, sealSuite)
@@ -393,6 +452,18 @@ func buildScript(seed uint64, p *ScriptPlan) (*built, error) {
 	}
 	b.outer = o2
 	b.outerRec = o2.Record(recVer)
+	if m := hasMut(p.Mutations, "outer-ext-remnant"); m != nil {
+		// 1..3 stray bytes at the end of the outer extensions block, lengths consistent
+		body := o2.Body()
+		eb := echbox.MarshalExts(o2.Exts)
+		off := len(body) - len(eb) - 2
+		extra := 1 + m.A%3
+		binary.BigEndian.PutUint16(body[off:], uint16(len(eb)+extra))
+		for i := 0; i < extra; i++ {
+			body = append(body, byte(m.B>>(8*i)))
+		}
+		b.outerRec = echbox.Record(22, recVer, echbox.Handshake(1, body))
+	}
 	if len(b.outerRec) > 5+16384 {
 		return nil, errSkip // not a legal plaintext record
 	}
@@ -421,6 +492,13 @@ type scriptOutcome struct {
 }
 
 func runScript(keys []ech.Key, in []byte, chunks []int, readBuf int) (*scriptOutcome, *simnet.ScriptConn) {
+	return runScriptW(keys, in, chunks, readBuf, nil)
+}
+
+// runScriptW: as runScript, but afterNewConn (if non-nil) is written through
+// Conn.Write right after NewConn returned (a backend flight such as a
+// HelloRetryRequest) before the rest of the client's bytes is read.
+func runScriptW(keys []ech.Key, in []byte, chunks []int, readBuf int, afterNewConn []byte) (*scriptOutcome, *simnet.ScriptConn) {
 	sc := simnet.NewScript(in)
 	sc.Chunks = chunks
 	o := &scriptOutcome{}
@@ -433,6 +511,12 @@ func runScript(keys []ech.Key, in []byte, chunks []int, readBuf int) (*scriptOut
 			return
 		}
 		o.accepted, o.presented, o.name, o.alpn = conn.ECHAccepted(), conn.ECHPresented(), conn.ServerName(), conn.ALPNProtos()
+		if afterNewConn != nil {
+			if n, err := conn.Write(afterNewConn); err != nil || n != len(afterNewConn) {
+				o.readErr = fmt.Errorf("Conn.Write of the backend flight: n=%d err=%v", n, err)
+				return
+			}
+		}
 		if readBuf <= 0 {
 			readBuf = 32768
 		}
@@ -515,8 +599,22 @@ func executeScript(t *testing.T, prop string, seed uint64, p *ScriptPlan) *core.
 		return res
 	}
 	trailer := trailerBytes(seed, p.Trailer)
+	var flight []byte
+	if p.HRRThenHello2 && (p.Expect == "passthrough") {
+		// the backend asks for a retry; the client repeats its (outer) hello
+		flight = append(hrrRecord(core.Mix(seed, "hrr")), echbox.Record(20, 0x0303, []byte{1})...)
+		trailer = append(append(echbox.Record(20, 0x0303, []byte{1}), b.outerRec...), trailer...)
+	}
 	in := append(append([]byte(nil), b.outerRec...), trailer...)
-	o, _ := runScript(b.keys, in, p.Chunks, p.ReadBuf)
+	o, _ := runScriptW(b.keys, in, p.Chunks, p.ReadBuf, flight)
+	if flight != nil {
+		res.Probe("passthrough_hrr_second_hello")
+		if bytes.HasPrefix(o.out, flight) {
+			o.out = o.out[len(flight):]
+		} else if o.err == nil {
+			res.Fail(prop, "passthrough", "backend flight not forwarded unchanged", "wrote %d bytes, transport got %d", len(flight), len(o.out))
+		}
+	}
 	mk := "valid hello"
 	if len(p.Mutations) > 0 {
 		mk = ""
